@@ -681,9 +681,11 @@ def corpus(ctx):
     # dynamic calibration under a large base scale: the local scale is (residual norm) / (base scale) ~ 1e-9, still far
     # above the positivity floor eps of the implementation; it must be the documented estimate and divide by c exactly
     # (seeded change C04-s2: floor sqrt(eps))
+    slow = problems.PolyField(2, 1, [[(Fraction(-1, 8), (1, 0, 0))], [(Fraction(1, 16), (1, 0, 0)), (Fraction(-1, 8), (0, 1, 0))]])
     for fact in ("iso", "bd"):
+        # slowly varying solution: local scale ~ 2e-3 at base scale 1, ~ 2e-9 at base scale 1e6
         cfgd = sm.Config(fact=fact, solver="dynamic", strategy="filter", lin="ts0", q=2, base_scale=(1.0 if fact == "iso" else [1.0, 2.0]))
-        equivariance_fixed(ctx, cfgd, 2, lin, [np.array([1.0, -0.5])], 0.0, [0.125, 0.25, 0.125, 0.25], [1e6, 2.0**20])
+        equivariance_fixed(ctx, cfgd, 2, slow, [np.array([1.0, -0.5])], 0.0, [0.125, 0.25, 0.125, 0.25], [1e6, 2.0**20])
     # dynamic calibration, many checkpoints inside single accepted steps: every checkpoint reports the local scale of
     # the step that passed it, also the second and later checkpoints of that step (seeded change C04-s4)
     cfgd = sm.Config(fact="iso", solver="dynamic", strategy="filter", lin="ts0", q=2)
